@@ -63,14 +63,16 @@ class AdamsBashforthSolver(SolverBase):
                 state_prev[:] = state_data - dt * rhs_pde(state_data, t_start)
                 init_state_prev = False
 
+            state = state_data
             for i in range(steps):
                 # calculate the right hand side
                 t = t_start + i * dt
-                single_step(state_data, t, state_prev)
-                state_data, self.info["post_step_data"] = post_step_hook(
-                    state_data, t, post_step_data=self.info["post_step_data"]
+                single_step(state, t, state_prev)
+                state, self.info["post_step_data"] = post_step_hook(
+                    state, t, post_step_data=self.info["post_step_data"]
                 )
 
+            state_data[:] = state  # need to copy since post_step_hook could change data
             self.info["steps"] += steps
             return t + dt
 
